@@ -211,15 +211,12 @@ fn extract_files_with_metadata(
     options: &RebuildOptions,
     progress_callback: &Option<ProgressCallback>,
 ) -> Result<Vec<(Vec<u8>, FileMetadata)>> {
-    // Get file list, preferring the most complete method
-    let files = if metadata.has_het_bet {
-        archive
-            .list_all_with_hashes()
-            .unwrap_or_else(|_| archive.list().unwrap_or_default())
-    } else {
-        archive
-            .list()
-            .unwrap_or_else(|_| archive.list_all().unwrap_or_default())
+    // Get file list. Real names (from the listfile) come first: the placeholder names that
+    // list_all_with_hashes() produces for HET/BET archives cannot be read back by name.
+    let _ = metadata;
+    let files = match archive.list() {
+        Ok(files) if !files.is_empty() => files,
+        _ => archive.list_all().unwrap_or_default(),
     };
 
     let mut extracted_files = Vec::new();
